@@ -34,6 +34,11 @@ def declared(case):
                  1 if t["static"] else 0, t["static"])
         base[t["name"]] = d
         rows0.append([t["name"], d])
+    shared = case.get("shared_ct")
+    if shared:    # one CTrait object under several names: each name is its own definition (static handler on a clone)
+        for n in sorted(shared["names"]):
+            st = n in shared["static"]
+            rows0.append([n, tdef("KConst", [shared["value"]], 0, 0, 1 if st else 0, st)])
     wild = case.get("wild")
     if wild:      # wildcard names, resolved once per class by the driver: ordinary constant traits from then on
         for n in sorted(wild["names"]):
@@ -126,7 +131,7 @@ def trait_kind(case, op):
     for t in case["traits"]:
         if t["name"] == op[2]:
             return t["kind"]
-    return "wildcard" if op[2] >= 60 else "added"
+    return "shared-ctrait" if op[2] >= 70 else "wildcard" if op[2] >= 60 else "added"
 
 
 def key_fn(case, obs, step, clause):
@@ -180,6 +185,9 @@ def gen_case(rnd, ctx, maxlen):
                            cmp=rnd.choice(["equality"] * 5 + ["none", "identity"])))
         ctx.count("kind:" + k)
         ctx.count("comparison-mode:" + traits[-1]["cmp"])
+        if k in ("KListCopy", "KDictCopy") and rnd.random() < 0.5:
+            traits[-1]["subclass"] = True        # the declared default is an instance of a list / dict subclass
+            ctx.count("default:container-subclass-instance")
     sub = []
     for t in traits:
         r = rnd.random()
@@ -197,6 +205,10 @@ def gen_case(rnd, ctx, maxlen):
     if rnd.random() < 0.4:
         wild = dict(default=rnd.randint(0, 9), names=[60, 61, 62], static=rnd.choice([[60], [61], [60, 62], []]))
         ctx.count("wildcard-trait")
+    shared_ct = None
+    if wild is None and rnd.random() < 0.3:
+        shared_ct = dict(value=rnd.randint(0, 9), names=[70, 71], static=rnd.choice([[70], [71], []]))
+        ctx.count("shared-ctrait-in-class-body")
     ops = [["NewInst", rnd.randint(0, 1)] for _ in range(rnd.randint(2, 3))]
     cls_of = [o[1] for o in ops]
     shadow = [dict() for _ in ops]        # per instance: name -> kind of the trait added over it
@@ -228,7 +240,8 @@ def gen_case(rnd, ctx, maxlen):
     focus = rnd.randrange(len(traits))      # interleave the same attribute on several instances
     for s in range(nsteps):
         i = rnd.randrange(len(cls_of))
-        names = list(range(len(traits))) + sorted(extra[i]) + (wild["names"] if wild else [])
+        names = list(range(len(traits))) + sorted(extra[i]) + (wild["names"] if wild else []) + \
+            (shared_ct["names"] if shared_ct else [])
         n = focus if rnd.random() < 0.4 else rnd.choice(names)
         r = rnd.random()
         if pending:
@@ -269,6 +282,10 @@ def gen_case(rnd, ctx, maxlen):
                 ctx.count("register:object-level")
         elif r < 0.86:
             op = ["Introspect", i, rnd.randint(0, 4)]
+            if rnd.random() < 0.4:
+                # obj.trait(name, copy=True), then metadata set on the copy
+                op = ["Introspect", i, 100000 + 100 * rnd.choice(names) + rnd.randint(1, 9)]
+                ctx.count("trait-copy-metadata")
         elif r < 0.95:
             if rnd.random() < 0.5:
                 n = 50 + rnd.randint(0, 1)
@@ -306,6 +323,8 @@ def gen_case(rnd, ctx, maxlen):
     case = dict(traits=traits, sub=sub, ops=ops)
     if wild:
         case["wild"] = wild
+    if shared_ct:
+        case["shared_ct"] = shared_ct
     return case
 
 
@@ -401,8 +420,24 @@ def wildcard_case():
     return dict(traits=traits, sub=[], ops=ops, wild=dict(default=7, names=[60, 61, 62], static=[60]))
 
 
+def definitions_case():
+    """Definitions shared by construction: one CTrait object declared under two names with a static handler for one;
+    Any defaults that are instances of list / dict subclasses; private trait copies whose metadata is then set."""
+    traits = [dict(name=0, kind="KListCopy", content=[1, 2], scalar=0, static=False, subclass=True),
+              dict(name=1, kind="KDictCopy", content=[1, 1], scalar=0, static=True, subclass=True),
+              dict(name=2, kind="KTuple", content=[4], scalar=3, static=False),
+              dict(name=3, kind="KConst", content=[5], scalar=0, static=False)]
+    ops = [["NewInst", 0], ["NewInst", 0], ["NewInst", 1]]
+    for n in (0, 1, 2, 3, 70, 71):
+        ops += [["Read", 0, n], ["Mutate", 0, n, 100 + n], ["Introspect", 0, 100000 + 100 * n + 4], ["Read", 1, n],
+                ["Introspect", 2, 100000 + 100 * n + 5], ["Read", 2, n]]
+    ops += [["Assign", 0, 70, [8], 0], ["Assign", 1, 71, [9], 0], ["Assign", 2, 71, [2], 0], ["Assign", 2, 70, [2], 0],
+            ["NewInst", 0], ["Read", 3, 0], ["Read", 3, 1], ["Read", 3, 70], ["Read", 3, 71]]
+    return dict(traits=traits, sub=[], ops=ops, shared_ct=dict(value=3, names=[70, 71], static=[70]))
+
+
 def corpus():
-    return [wildcard_case(), all_kinds_case(False), all_kinds_case(True), sharing_case(), object_level_case(),
+    return [definitions_case(), wildcard_case(), all_kinds_case(False), all_kinds_case(True), sharing_case(), object_level_case(),
             comparison_mode_case("none"), comparison_mode_case("identity"), handover_case()]
 
 
@@ -422,12 +457,12 @@ def run(ctx):
                        "double reads on the last instance; a case is non-trivial if >= 2 instances exist and some step "
                        "returns a container object; distinct = distinct (configuration, history)")
     rnd = random.Random(ctx.seed)
-    n, maxlen = (400, 12) if ctx.tier == "quick" else (3000, 30)
+    n, maxlen = (300, 12) if ctx.tier == "quick" else (3000, 30)
     if ctx.replay:
         cases = [json.load(open(ctx.replay))["replay"]["case"]]
     else:
         cases = corpus() + [gen_case(rnd, ctx, maxlen) for _ in range(n)]
-    for c in cases[3:6] + cases[-1:]:   # evidence samples: two corpus cases, one random, the last random
+    for c in cases[4:7] + cases[-1:]:   # evidence samples: two corpus cases, one random, the last random
         ctx.sample(c)
     _evaluate = hist.evaluate
 
